@@ -2479,7 +2479,7 @@ bool SoPlexBase<R>::_boostPrecision()
 
       if(intParam(SoPlexBase<R>::MULTIPRECISION_LIMIT) >= nbDigitsSecondBoost)
       {
-         BP::default_precision((int)nbDigitsSecondBoost);
+         BP::thread_default_precision((int)nbDigitsSecondBoost);
       }
       else
       {
@@ -2492,12 +2492,12 @@ bool SoPlexBase<R>::_boostPrecision()
    else if(_statistics->precBoosts >= 2)
    {
       // general case: increase the number of decimal digits by 3/2,
-      int newNbDigits = (int)floor(BP::default_precision() * realParam(
+      int newNbDigits = (int)floor(BP::thread_default_precision() * realParam(
                                       SoPlexBase<R>::PRECISION_BOOSTING_FACTOR));
 
       if(intParam(SoPlexBase<R>::MULTIPRECISION_LIMIT) >= newNbDigits)
       {
-         BP::default_precision(newNbDigits);
+         BP::thread_default_precision(newNbDigits);
       }
       else
       {
@@ -2523,7 +2523,7 @@ void SoPlexBase<R>::_resetBoostedPrecision()
 {
    _statistics->precBoosts = 0;
 #ifdef SOPLEX_WITH_MPFR
-   BP::default_precision(50);
+   BP::thread_default_precision(50);
 #endif
 }
 
@@ -2776,7 +2776,7 @@ void SoPlexBase<R>::_solveRealForRationalBoostedStable(
    // start rational solving timing
    _statistics->rationalTime->start();
 
-   SPX_MSG_INFO1(spxout, spxout << "Current precision = 1e-" << BP::default_precision() << ", ");
+   SPX_MSG_INFO1(spxout, spxout << "Current precision = 1e-" << BP::thread_default_precision() << ", ");
 
    primalFeasible = false;
    dualFeasible = false;
@@ -2793,16 +2793,16 @@ void SoPlexBase<R>::_solveRealForRationalBoostedStable(
    _statistics->boostingStepTime->start();
 
    BP tolerance = boost::multiprecision::pow(BP(10),
-                  -(int)(BP::default_precision() * _tolPrecisionRatio));
+                  -(int)(BP::thread_default_precision() * _tolPrecisionRatio));
 
    BP epsilonZero   = boost::multiprecision::pow(BP(10),
-                      -(int)(BP::default_precision() * _epsZeroPrecisionRatio));
+                      -(int)(BP::thread_default_precision() * _epsZeroPrecisionRatio));
    BP epsilonFactor = boost::multiprecision::pow(BP(10),
-                      -(int)(BP::default_precision() * _epsFactorPrecisionRatio));
+                      -(int)(BP::thread_default_precision() * _epsFactorPrecisionRatio));
    BP epsilonUpdate = boost::multiprecision::pow(BP(10),
-                      -(int)(BP::default_precision() * _epsUpdatePrecisionRatio));
+                      -(int)(BP::thread_default_precision() * _epsUpdatePrecisionRatio));
    BP epsilonPivot  = boost::multiprecision::pow(BP(10),
-                      -(int)(BP::default_precision() * _epsPivotPrecisionRatio));
+                      -(int)(BP::thread_default_precision() * _epsPivotPrecisionRatio));
 
    this->_tolerances->setEpsilon((Real) epsilonZero);
    this->_tolerances->setEpsilonFactorization((Real) epsilonFactor);
@@ -3041,7 +3041,7 @@ void SoPlexBase<R>::_performOptIRStableBoosted(
    // start rational solving timing
    _statistics->rationalTime->start();
 
-   SPX_MSG_INFO1(spxout, spxout << "Current precision = 1e-" << BP::default_precision() << ", ");
+   SPX_MSG_INFO1(spxout, spxout << "Current precision = 1e-" << BP::thread_default_precision() << ", ");
 
    typename SPxSolverBase<BP>::Status boostedResult = SPxSolverBase<BP>::UNKNOWN;
 
@@ -3066,16 +3066,16 @@ void SoPlexBase<R>::_performOptIRStableBoosted(
    _statistics->boostingStepTime->start();
 
    BP tolerance = boost::multiprecision::pow(BP(10),
-                  -(int)(BP::default_precision() * _tolPrecisionRatio));
+                  -(int)(BP::thread_default_precision() * _tolPrecisionRatio));
 
    BP epsilonZero   = boost::multiprecision::pow(BP(10),
-                      -(int)(BP::default_precision() * _epsZeroPrecisionRatio));
+                      -(int)(BP::thread_default_precision() * _epsZeroPrecisionRatio));
    BP epsilonFactor = boost::multiprecision::pow(BP(10),
-                      -(int)(BP::default_precision() * _epsFactorPrecisionRatio));
+                      -(int)(BP::thread_default_precision() * _epsFactorPrecisionRatio));
    BP epsilonUpdate = boost::multiprecision::pow(BP(10),
-                      -(int)(BP::default_precision() * _epsUpdatePrecisionRatio));
+                      -(int)(BP::thread_default_precision() * _epsUpdatePrecisionRatio));
    BP epsilonPivot  = boost::multiprecision::pow(BP(10),
-                      -(int)(BP::default_precision() * _epsPivotPrecisionRatio));
+                      -(int)(BP::thread_default_precision() * _epsPivotPrecisionRatio));
 
    this->_tolerances->setEpsilon((Real) epsilonZero);
    this->_tolerances->setEpsilonFactorization((Real) epsilonFactor);
@@ -5872,7 +5872,7 @@ void SoPlexBase<R>::_solveRealForRationalBoosted(
          // do not remove bounds of boxed variables or sides of ranged rows if bound flipping is used
          bool keepbounds = intParam(SoPlexBase<R>::RATIOTESTER) == SoPlexBase<R>::RATIOTESTER_BOUNDFLIPPING;
          Real remainingTime = _boostedSolver.getMaxTime() - _boostedSolver.time();
-         BP tol = pow(10, -(int)(BP::default_precision() * _tolPrecisionRatio));
+         BP tol = pow(10, -(int)(BP::thread_default_precision() * _tolPrecisionRatio));
          simplificationStatus = _boostedSimplifier->simplify(_boostedSolver, remainingTime, keepbounds,
                                 _boostedSolver.random.getSeed());
       }
